@@ -9,6 +9,7 @@
 //   ev snap <j>                 store j's current advertisement;  ev deliver <i> <j>: i processes the stored one
 //   obs <i> <dirty 0|1|x> nb=<j,j,..|-> rib=<entry;entry..|-> adv=<d/nh/cost/other;..|-> ent=<d/cost/nh;..|->
 //        entry = d/nh1/l1/nh2/l2/dirty/h=c,h=c..      (everything sorted by key)
+//   chkfixed <r>   >= 2*16+maxdist+1 rounds: the implementation's whole state must be a fixed point
 //   chkquiet       nobody has an unfetched announcement left (notification-driven schedule ran to quiescence)
 //   chk <r>        the harness claims >= r complete rounds since the last topology change (runner verifies)
 //   chkclean <r>   same, and no loss event happened since the start of the case
@@ -612,6 +613,15 @@ func (w *world) converge(clean bool) {
 	w.round()
 	w.obsAll()
 	fmt.Fprintf(w.w, "%s %d\n", kind, rounds+1)
+	// now and then go on to 2*16 + maxdist + 1 rounds: the whole state (second-best costs included) is at rest
+	if kind == "chk" && len(w.pairs()) > 0 && w.r.Intn(4) == 0 {
+		full := 2*16 + md + 1
+		for w.rounds < full {
+			w.round()
+		}
+		w.obsAll()
+		fmt.Fprintf(w.w, "chkfixed %d\n", full)
+	}
 }
 
 func (w *world) fault(edges [][2]int) {
@@ -956,7 +966,7 @@ func TestReplay(t *testing.T) {
 				case "deliver":
 					w.evDeliver(idx(p[2]), idx(p[3]))
 				}
-			case "chk", "chkclean", "chkquiet":
+			case "chk", "chkclean", "chkquiet", "chkfixed":
 				start()
 				w.obsAll()
 				fmt.Fprintln(out, line)
